@@ -1199,6 +1199,7 @@ class Connection(object):
                     self._io_buffer.io_buffer.seek(0)
             except CrcException as exc:
                 # re-raise an exception that inherits from ConnectionException
+                self._io_buffer._segment_consumed = False
                 raise CrcMismatchException(str(exc), self.endpoint)
         else:
             # not even a complete segment header yet: keep what we have for the next read
